@@ -43,7 +43,7 @@ func RunMC(c MCCheck, tier string) int {
 		dl = c.Thorough
 	}
 	deadline := start.Add(dl)
-	pool := par.NewPool(Workers(), "worker", "mc")
+	pool := par.NewPool(WorkersCPU(), "worker", "mc")
 	defer pool.Close()
 	var viols []string
 	var errs []string
